@@ -74,6 +74,16 @@ theorem addAddress_inv (h : Holder) (addr : Nat) (hi : InvS h.secs) : InvS (addA
   · simp only []
     exact InvS.transfer (modifySec_keys _ _ _ (fun s => ⟨rfl, rfl, rfl⟩)) (ensureAddrTab_inv h hi)
 
+theorem init_inv : InvS init.secs := by
+  refine ⟨?_, ?_, ?_, ?_⟩
+  · simp [init, OrderSorted]
+  · simp [init, textSection]
+  · simp [init]
+  · exact ⟨textSection, [], rfl, rfl, rfl, rfl, by simp⟩
+
+/-- a reused holder carries the table of a fresh one -/
+theorem reinit_eq_init (h : Holder) : reinit h = init := rfl
+
 theorem step_inv (h : Holder) (op : Op) (hi : InvS h.secs) : InvS (step h op).secs := by
   cases op with
   | newSection n a o =>
@@ -100,13 +110,7 @@ theorem step_inv (h : Holder) (op : Op) (hi : InvS h.secs) : InvS (step h op).se
     · exact InvS.transfer (assign_keys 0 h.secs) hi
     · exact hi
   | relocate b => exact InvS.transfer (relocate_keys h b) hi
-
-theorem init_inv : InvS init.secs := by
-  refine ⟨?_, ?_, ?_, ?_⟩
-  · simp [init, OrderSorted]
-  · simp [init, textSection]
-  · simp [init]
-  · exact ⟨textSection, [], rfl, rfl, rfl, rfl, by simp⟩
+  | reinit => exact init_inv
 
 theorem run_inv (ops : List Op) : InvS (run ops).secs := by
   unfold run
